@@ -53,6 +53,7 @@ DOCUMENTED_DEFAULTS = {
     "PersLandscapeExact": {"hom_deg": 0, "compute": True}, "PersLandscapeApprox": {"hom_deg": 0, "num_steps": 500, "start": None, "stop": None, "compute": True},
     "PersistenceLandscaper": {"hom_deg": 0, "start": None, "stop": None, "num_steps": 500, "flatten": False},
     "vectorize": {"start": None, "stop": None, "num_steps": 500}, "death_vector": {"hom_deg": 0},
+    "PersLandscapeExact.p_norm": {"p": 2}, "PersLandscapeApprox.p_norm": {"p": 2},
     "plot_diagrams": {"plot_only": None, "title": None, "xy_range": None, "labels": None, "diagonal": True, "lifetime": False, "legend": True, "show": False, "ax": None},
     "bottleneck_matching": {"ax": None}, "wasserstein_matching": {"ax": None},
 }
